@@ -332,9 +332,11 @@ class WriteFaults(Engine):
     real_components = ["antismash.common.serialiser.AntismashResults.write_to_file / to_json / dump_records / "
                        "record_to_json / gather_record_areas", "antismash.common.json.dumps (orjson)",
                        "real ModuleResults objects produced by the real pipeline (HMMDetectionResults, NRPSPKSDomains, "
-                       "TTAResults, SideloadedResults)", "antismash.main.prepare_output_directory / run_antismash",
+                       "TTAResults, SideloadedResults, HmmerResults / TIGRFamResults, Pfam2GoResults, AllFunctionResults, T2PKSResults, "
+                       "TerpeneResults, RREFinderResults, TFBSFinderResults)", "antismash.main.prepare_output_directory / run_antismash "
+                       "(incl. its logging set-up under --verbose / --debug and --profiling)",
                        "real files in a scratch directory"]
-    stub_components = ["hmmsearch / hmmscan -> in-process fakes", "wall clock -> simulated clock",
+    stub_components = ["hmmsearch / hmmscan / diamond -> in-process fakes", "wall clock -> simulated clock",
                        "database directory -> scratch directory"]
     rule = ("one run = one scenario. convert: a generated input is run through the real pipeline, then EVERY position of "
             "every conversion step (Record.to_biopython, record_to_json, gather_record_areas, get_gc_content, each "
